@@ -807,6 +807,7 @@ def run_check(ctx, prop, prop_file, theorems, hist_texts, replay, rule, jobs=8):
     ))
     ctx.assumptions += [
         "kernel model (KernelState.v): order of checks and errno values of seccomp(2)/prctl(2) validated on this kernel; a thread-sync is one atomic step with respect to thread creation and exit; a new thread inherits filters and no_new_privs from the thread that calls clone",
+        "the loader's own system calls are judged by the filters already installed (KernelState.gate): x86_64 numbers (seccomp 317, prctl 157), little-endian seccomp_data, instruction pointer and pointer arguments read as 0; a call answered with a fatal action ends the model's history",
         "the Go scheduler is an oracle naming the OS thread of an unpinned goroutine at every statement boundary; schedules of the real runs are sampled, not enumerated",
     ]
     finish_with_proof_status(ctx, nbad, "%s theorems over the regenerated loader skeletons" % prop)
